@@ -59,9 +59,73 @@ func H_C12_positions() {
 // whole tokens removed or rewritten. MODE=15 asserts the option statements, MODE=12
 // asserts that every surviving token keeps the position of its option-free counterpart.
 func H_C15_options() {
-	mode := vParam("MODE")
 	kind := tokKind()
 	c := symInputUpTo()
+	c15Check(kind, c, vParam("MODE"))
+	vDone()
+}
+
+// H_C15_lexemes: the same statements on inputs built from K lexemes of the tokenizer's
+// classes (whitespace runs, comments, characters without a state, words, numbers, strings,
+// symbols), so that shapes like "a /*c*/ b" are inside the bound.
+func H_C15_lexemes() {
+	kind := vParam("TOK") // generic or expression
+	K := vParam("K")
+	var input []rune
+	prevClass := -1
+	for i := 0; i < K; i++ {
+		class := vChoice("class", 7)
+		var text []rune
+		switch class {
+		case 0: // whitespace
+			w := vRune("ws")
+			vAssume(w <= ' ')
+			text = []rune{w}
+			if prevClass == 0 {
+				vAssume(false)
+			}
+		case 1: // comment
+			x := vRune("cm")
+			if kind == tkExpression {
+				vAssume(vAnd(x != '*', x != '/'))
+				text = []rune{'/', '*', x, '*', '/'}
+			} else {
+				vAssume(vAnd(x != '\n', x != '\r'))
+				text = []rune{'#', x, '\n'}
+			}
+		case 2: // a character no state is configured for
+			u := vRune("u")
+			vAssume(u > 0xFFFE)
+			text = []rune{u}
+		case 3:
+			text = []rune{'a'}
+		case 4:
+			text = [][]rune{{'1'}, {'1', '.', '5'}}[vChoice("num", 2)]
+		case 5:
+			x := vRune("q")
+			vAssume(x != '\'')
+			text = []rune{'\'', x, '\''}
+		case 6:
+			text = []rune{'<', '='}
+		}
+		// neighbours that would fuse are separated by a space
+		if (prevClass == 3 || prevClass == 4) && (class == 3 || class == 4) {
+			input = append(input, ' ')
+		}
+		if prevClass == 6 && (class == 6 || class == 1 || class == 4) {
+			input = append(input, ' ')
+		}
+		if prevClass == 5 && class == 5 {
+			input = append(input, ' ')
+		}
+		input = append(input, text...)
+		prevClass = class
+	}
+	c15Check(kind, input, vParam("MODE"))
+	vDone()
+}
+
+func c15Check(kind int, c []rune, mode int) {
 	t0 := newTokenizer(kind)
 	ref := t0.TokenizeBuffer(string(c))
 	o := symOptions()
@@ -127,5 +191,4 @@ func H_C15_options() {
 			prevWS = isWS
 		}
 	}
-	vDone()
 }
